@@ -4,6 +4,8 @@ package main
 import (
 	"errors"
 	"fmt"
+	"time"
+	_ "time/tzdata" // embedded zone database: the process's local zone is a configuration the code could observe
 
 	"go.lstv.dev/util/date"
 	"verif/mc"
@@ -15,14 +17,26 @@ type arg struct {
 	Rule   int    `json:"rule"`
 	MaxLen int    `json:"max_input_length"`
 	Path   int    `json:"path"` // 0 DefaultParser[string], 1 DefaultParser[[]byte], 2 UnmarshalText (rule 0 only)
+	Zone   string `json:"time_local,omitempty"` // the process's local zone during the call ("" = unchanged)
 }
 
+var defaultLocal = time.Local
+
 func reset() {
+	time.Local = defaultLocal
 	date.MaxInputLength = 10
 	date.Formatter = date.DefaultFormatter
 	date.Parser = date.DefaultParser[[]byte]
 }
-func setup(a arg) { date.MaxInputLength = a.MaxLen }
+func setup(a arg) {
+	date.MaxInputLength = a.MaxLen
+	time.Local = defaultLocal
+	if a.Zone != "" {
+		if loc, err := time.LoadLocation(a.Zone); err == nil {
+			time.Local = loc
+		}
+	}
+}
 
 // expectation classes
 const (
@@ -182,6 +196,7 @@ func main() {
 		r.Assume("inputs over MaxInputLength: only 'error, zero result, typed error' is required here (the error class is C18's)")
 		r.Assume("invalid basic-shaped text under RuleDisableBasic: either ErrBasicFormatDisabled or the generic error is accepted (statement is silent)")
 
+		zone := "" // time.Local of the current phase
 		one := func(w *mc.W, s []byte, rule, ml int, paths int) {
 			cls, _, _, _ := expect(s, rule, ml)
 			w.Point()
@@ -193,10 +208,50 @@ func main() {
 				if path == 2 && rule != 0 {
 					continue
 				}
-				p.Do(w, arg{In: mc.Bin(s), Rule: rule, MaxLen: ml, Path: path})
+				p.Do(w, arg{In: mc.Bin(s), Rule: rule, MaxLen: ml, Path: path, Zone: zone})
 			}
 		}
 		limits := []int{10, 0, 8, 15}
+		// every small limit: all valid and near-valid texts of length 6..12 under MaxInputLength 1..12
+		r.Phase("every MaxInputLength 1..12 x valid and near-valid texts of length 6..12 x 2 rules x 3 entry points", "complete grid", func() {
+			texts := []string{"20200229", "20210229", "2020-02-29", "2020-2-29", "202002290", "020200229", "2020229", "12345-01-01", "123450101", "1234-01-01", "12340101", "123-01-01", "1230101", "2020-02-3", "100000101", "10000-01-01", "999999999-12-31", "9999999991231"}
+			for ml := 1; ml <= 12; ml++ {
+				setup(arg{MaxLen: ml})
+				r.Serial(func(w *mc.W) {
+					for _, t := range texts {
+						for rule := 0; rule < 2; rule++ {
+							one(w, []byte(t), rule, ml, 3)
+						}
+					}
+				})
+			}
+			reset()
+		})
+		// the process's local time zone must not matter: zones without a local midnight on some days (Apia 2011-12-30, Kiritimati 1994-12-31,
+		// Kwajalein 1993-08-21, Sao Paulo DST starts) and ordinary ones
+		for _, z := range []string{"Pacific/Apia", "America/Sao_Paulo", "Pacific/Kiritimati", "Pacific/Kwajalein", "Europe/Prague", "America/New_York", "Asia/Kolkata"} {
+			z := z
+			r.Phase(fmt.Sprintf("time.Local = %s: every day of 1880-2040 in extended and basic form x 3 entry points", z), "complete for the listed years", func() {
+				if _, err := time.LoadLocation(z); err != nil {
+					r.Infra("cannot load zone %s: %v", z, err)
+					return
+				}
+				zone = z
+				defer func() { zone = "" }()
+				setup(arg{MaxLen: 10, Zone: z})
+				r.Parallel(161, 1, func(w *mc.W, i int64) {
+					y := 1880 + i
+					for m := 1; m <= 12; m++ {
+						for d := 1; d <= 31; d++ {
+							for _, basic := range []bool{false, true} {
+								one(w, []byte(oracle.DateText(y, m, d, basic)), 0, 10, 3)
+							}
+						}
+					}
+				})
+				reset()
+			})
+		}
 		// (a) year x MM x DD x separator layout grid
 		years := []string{"0000", "0001", "0004", "0100", "0400", "1582", "1600", "1700", "1800", "1899", "1900", "1999", "2000", "2001", "2004", "2019", "2020", "2021",
 			"2022", "2023", "2024", "2100", "2400", "9996", "9999", "10000", "10004", "10100", "10400", "12345", "20000", "99999", "100000", "100004", "123456", "999999",
